@@ -41,6 +41,21 @@ func (e *Engine) verifyFunc(fn *ssa.Function, fc *FuncContract) (vcs []*VC, err 
 		}
 		cases = next
 	}
+	if len(fc.Splits) > 0 {
+		// the case split must be exhaustive: the preconditions imply lo <= E <= hi
+		vc := e.newVC(base + "#split")
+		vc.Contract = fc
+		vc.exhaustOnly = true
+		vc.decisions, vc.valDecisions = map[string]bool{}, map[string]int64{}
+		if err := e.runVC(vc, fn, fc, nil); err != nil {
+			return nil, fmt.Errorf("%s: %v", vc.Name, err)
+		}
+		if len(vc.obls) > 0 {
+			vcs = append(vcs, vc)
+		} else {
+			delete(e.used, vc)
+		}
+	}
 	for _, c := range cases {
 		// opaque predicates met during execution are decided by further splitting
 		type dcase struct {
@@ -179,8 +194,21 @@ func (e *Engine) runVC(vc *VC, fn *ssa.Function, fc *FuncContract, splitVals []i
 		}
 	}
 	env := vc.bindEnv(fc, fn, params, nil, st, st)
+	type exh struct {
+		t, text string
+		bits    int
+		signed  bool
+		lo, hi  int64
+	}
+	var exhs []exh
 	for i, sp := range fc.Splits {
 		v := env.eval(sp.E)
+		if vc.exhaustOnly {
+			if !(v.Untyped == nil && v.sort() == SBool) {
+				exhs = append(exhs, exh{v.term(), sp.Text, v.sort().Bits(), v.signed(), sp.Lo, sp.Hi})
+			}
+			continue
+		}
 		if v.Untyped == nil && v.sort() == SBool {
 			// boolean case split: 1 = holds, 0 = does not hold
 			if splitVals[i] != 0 {
@@ -205,6 +233,17 @@ func (e *Engine) runVC(vc *VC, fn *ssa.Function, fc *FuncContract, splitVals []i
 	for _, r := range fc.Requires {
 		// (after assuming them unsimplified) learn  location == constant  facts
 		env.learnConsts(r.E)
+	}
+	if vc.exhaustOnly {
+		for _, x := range exhs {
+			le, ge := "bvsle", "bvsge"
+			if !x.signed {
+				le, ge = "bvule", "bvuge"
+			}
+			vc.oblige("split-exhaustive", fmt.Sprintf("case split of %s: the preconditions imply %d <= %s <= %d", fc.Key, x.lo, x.text, x.hi), "true",
+				and(app(ge, x.t, bvLit(x.bits, x.lo)), app(le, x.t, bvLit(x.bits, x.hi))), "@split")
+		}
+		return nil
 	}
 	vc.cover("cover-entry", "preconditions of "+fc.Key+" are satisfiable", "true")
 	for _, h := range fc.Hints {
